@@ -50,7 +50,35 @@ pub fn one(run: &Run, base: &Sealed, db: &Db, cfg: &Cfg, m: u128, delta: Option<
         reward_dest: addr_true(),
     });
     run.transition();
-    let res = guard(|| parent.next_unsealed().seal(action).header().fee_multiplier);
+    // around the rule switch and for small multipliers the sealed block is also handed back to its parent: "no proposer can make
+    // sealing fail" includes the block being accepted, under the specified step and under no other
+    let replay_block = m <= 300 && (cfg.name.contains("last-before") || cfg.name.contains("first-after") || cfg.name.contains("after500") || cfg.name.contains("after901"));
+    let res = guard(|| {
+        let sealed = parent.next_unsealed().seal(action);
+        if replay_block {
+            let blk = sealed.to_block();
+            match parent.apply_block(&blk) {
+                Ok(s) if s.header() == blk.header => run.outcome("sealed-block-accepted-by-its-parent"),
+                Ok(_) => run.violation("C17", format!("sealed-block-applies-to-another-header/{}", cfg.name), format!("multiplier {} delta {:?}", m, delta), replay.clone()),
+                Err(e) => run.violation("C17", format!("sealed-block-refused-by-its-parent/{}", cfg.name), format!("the block sealed at multiplier {} with delta {:?} is refused by the state it was built on: {}", m, delta, e), replay.clone()),
+            }
+            if let Some(d) = delta {
+                // the step of the *other* rule (with / without the floor of 2), where it differs: a block declaring it is not the successor
+                let other = expected(m, d, !cfg.floor2);
+                if !other.is_negative() && other != BigInt::from(blk.header.fee_multiplier) {
+                    if let Some(o) = other.to_u128() {
+                        let mut forged = blk.clone();
+                        forged.header.fee_multiplier = o;
+                        match parent.apply_block(&forged) {
+                            Ok(_) => run.violation("C17", format!("accepts-the-other-rules-step/{}", cfg.name), format!("a block declaring multiplier {} -> {} (delta {}; the specified step gives {}) is accepted", m, o, d, blk.header.fee_multiplier), replay.clone()),
+                            Err(_) => run.outcome("other-rules-step-refused"),
+                        }
+                    }
+                }
+            }
+        }
+        sealed.header().fee_multiplier
+    });
     let region = if m < 256 {
         "m<256"
     } else if m < (1u128 << 56) {
